@@ -117,7 +117,12 @@ func NewSubscriberWithConcurrencyMode[T any](destination Observer[T], mode Concu
 func newSubscriberImpl[T any](mode ConcurrencyMode, mu xsync.Mutex, backpressure Backpressure, destination Observer[T]) Subscriber[T] {
 	// Protect against multiple encapsulation layers.
 	if subscriber, ok := destination.(Subscriber[T]); ok {
-		return subscriber
+		// An existing subscriber is reused only when it already serializes its producers,
+		// or when no serialization is requested: an unsafe subscriber created downstream
+		// must not stand in for a safe one.
+		if impl, ok := subscriber.(*subscriberImpl[T]); !ok || mode == ConcurrencyModeUnsafe || impl.mode != ConcurrencyModeUnsafe {
+			return subscriber
+		}
 	}
 
 	subscriber := &subscriberImpl[T]{
